@@ -216,6 +216,52 @@ def hint_section_mutations(rng, p, sig):
     return out
 
 
+def adversarial_hint_sections(p):
+    """(tag, y): hint sections built from scratch - index runs that stay strictly increasing as long as possible combined with count
+    patterns at and beyond every bound (a count above omega in any row, totals that walk past the section, counts that fall back) -
+    what a decoder that bounds only the last count, or only some rows, would walk through."""
+    omega, k = p['omega'], p['k']
+    runs = {'indices 0,1,2,..': [j for j in range(omega)],
+            'indices 256-omega..255': [256 - omega + j for j in range(omega)],
+            'indices all 0': [0] * omega, 'indices all 255': [255] * omega,
+            'indices 0,2,4,..': [(2 * j) % 256 for j in range(omega)]}
+    pats = {}
+    for c in (0, 1, omega - 1, omega, omega + 1, omega + k - 1, omega + k, 200, 255):
+        pats[f'all counts {c}'] = [c] * k
+        pats[f'first count {c}, rest 0'] = [c] + [0] * (k - 1)
+        pats[f'last count {c}, rest 0'] = [0] * (k - 1) + [c]
+        pats[f'first count {c}, rest omega'] = [c] + [omega] * (k - 1)
+    pats['first count omega+k-1, then 200+j, last 0'] = [omega + k - 1] + [200 + j for j in range(1, k - 1)] + [0]
+    pats['counts omega+1.. increasing, last omega'] = [min(255, omega + 1 + j) for j in range(k - 1)] + [omega]
+    pats['counts step omega/k'] = [min(255, (j + 1) * (omega // k)) for j in range(k)]
+    pats['counts step omega/k then fall to 1'] = [min(255, (j + 1) * (omega // k)) for j in range(k - 1)] + [1]
+    out = []
+    for rt, run in runs.items():
+        for pt, cnt in pats.items():
+            out.append((f'{rt}; {pt}', bytes(run) + bytes(cnt)))
+    return out
+
+
+def whole_poly_bad_keys(s, sk):
+    """(tag, key bytes): private keys in which EVERY field of one s1 / s2 polynomial is out of range (256 bad fields: a tally kept in a
+    byte wraps to zero), and the all-0xFF key"""
+    p = R.PARAMS[s]
+    eta, k, l = p['eta'], p['k'], p['l']
+    bl = R.bitlen(2 * eta)
+    plen = 32 * bl
+    out = []
+    for pi in sorted({0, l - 1, l, l + k - 1}):
+        key = bytearray(sk)
+        key[128 + pi * plen:128 + (pi + 1) * plen] = bytes([0xFF]) * plen
+        out.append((f'every field of polynomial {pi} is 2^bitlen-1', bytes(key)))
+        if eta == 4:
+            key = bytearray(sk)
+            key[128 + pi * plen:128 + (pi + 1) * plen] = bytes([0x9C]) * plen
+            out.append((f'every field of polynomial {pi} alternates 12 / 9', bytes(key)))
+    out.append(('all-0xFF key', bytes([0xFF]) * len(sk)))
+    return out
+
+
 # ------------------------------------------------------------------ private keys whose t = A s1 + s2 sits on the reduction boundary
 def boundary_t_keys(rng, s, want=2, max_rho=400):
     """Accepted (dishonest) private keys for which a coefficient of NTT^-1(A s1) + s2 falls *outside* [0, q): at or above q
@@ -269,6 +315,42 @@ def boundary_t_keys(rng, s, want=2, max_rho=400):
     sk = R.sk_encode(p, rho, bytes(32), bytes(64), s1, s2, t0)
     t1 = [[R.power2round(cf % Q)[0] for cf in poly] for poly in s2]
     out.append(('t negative before reduction (s1 = 0, s2 = -eta)', sk, R.pk_encode(p, rho, t1)))
+    # t exactly 0 before reduction: (a) s1 = 0 and s2 with zeros, ones and minus ones; (b) a cancellation (A s1)_ij = -s2_ij != 0
+    s2 = [[(0, 1, -1, 0, eta, 0, -eta, 0)[(a + b) % 8] for b in range(256)] for a in range(k)]
+    sk = R.sk_encode(p, rho, bytes(32), bytes(64), s1, s2, t0)
+    t1 = [[R.power2round(cf % Q)[0] for cf in poly] for poly in s2]
+    out.append(('t exactly 0 before reduction (s1 = 0, zeros in s2)', sk, R.pk_encode(p, rho, t1)))
+    tried = 0
+    while tried < max_rho:
+        tried += 1
+        rho = bytes(rng.randrange(256) for _ in range(32))
+        hit = None
+        for i in range(k):
+            a = R.intt(R.rej_ntt_poly(rho + bytes([0, i])))
+            for j, v in enumerate(a):
+                for c in range(-eta, eta + 1):
+                    w = (c * v) % Q
+                    if c and (w <= eta or w >= Q - eta):
+                        hit = (i, j, c, w if w <= eta else w - Q)
+                        break
+                if hit:
+                    break
+            if hit:
+                break
+        if not hit:
+            continue
+        i, j, c, w = hit
+        s1 = [[0] * 256 for _ in range(l)]
+        s1[0][0] = c
+        s2 = [[0] * 256 for _ in range(k)]
+        s2[i][j] = -w                      # t_ij = w - w = 0 with both summands non-zero
+        sk = R.sk_encode(p, rho, bytes(32), bytes(64), s1, s2, t0)
+        A = R.expand_a(p, rho)
+        t = R.vadd([R.intt(x) for x in R.matvec(A, [R.ntt(x) for x in s1])], s2)
+        assert t[i][j] % Q == 0
+        t1 = [[R.power2round(cf % Q)[0] for cf in poly] for poly in t]
+        out.append((f't exactly 0 by cancellation ((A s1)_ij = {w}, s2_ij = {-w})', sk, R.pk_encode(p, rho, t1)))
+        break
     return out
 
 
@@ -366,6 +448,12 @@ def extremal_t0_cases(s):
     if not d:
         return []
     return [(tag, bytes.fromhex(d['sk']), bytes.fromhex(c['msg']), bytes.fromhex(d['ctx']), bytes.fromhex(d['rnd'])) for tag, c in d['cases'].items()]
+
+
+def zero_sum_seeds(s):
+    """honest seeds for which a coefficient of NTT^-1(A s1) + s2 is exactly 0 before the final reduction"""
+    d = rare_inputs().get('zero_sum_seeds')
+    return [bytes.fromhex(x) for x in d['seeds'].get(s, [])] if d else []
 
 
 def rare_keygen_seeds(s):
